@@ -8,7 +8,7 @@ from ..symx import SymStr, band, bor, cat, sym_alnum
 from .c01 import install_summaries, OPT_VARIANTS
 
 # fragment library for the symbolic-name mode: (text with descriptors, clean text, all-atom?)
-FRAGS_AA = ['[$]CC[$]', '[$]C(C)O[$]', '[$]C1CC1[$]', 'OC[$]', '[$]c1ccccc1', '[$]C[NH3+]']
+FRAGS_AA = ['[$]CC[$]', '[$]C(C)O[$]', '[$]C1CC1[$]', 'OC[$]', '[$]c1ccccc1', '[$]C[NH3+]', '[$][O;0.5]([H;0])C[$]', '[$]C[N;w=0]([H;w=0.25])[$]']
 FRAGS_CG = ['[$][#P][#Q][$]', '[$][#R]1[#S][#T]1[$]', '[$][#U]([#V])[$]', '[#W][$]']
 
 
@@ -26,13 +26,38 @@ def strip_desc(text):
 
 
 def template(text):
-    """spec-side graph of a fragment definition (heavy atoms / coarse nodes, internal bonds)"""
-    mol = gm.parse_smiles(strip_desc(text))
+    """spec-side graph of a fragment definition: heavy atoms / coarse nodes / explicitly written annotated hydrogens,
+    internal bonds, and the per-atom weight annotation (default 1)"""
+    import re
+    clean = strip_desc(text)
+    mol = gm.parse_smiles(clean)
+    # weights: first positional value or w=... of every bracket atom, in order of appearance
+    weights = {}
+    idx = -1
+    no_desc = re.sub(r'[=#.\-]?\[[$<>!][^\]]*\][=#.\-]?', '', text)
+    for tok in gm.tokenize(re.sub(r';[^\]]*\]', lambda m: m.group(0), no_desc)):
+        if tok.kind == 'atom':
+            idx += 1
+            if tok.text.startswith('[') and ';' in tok.text:
+                ann = tok.text[1:-1].split(';')[1:]
+                w = None
+                for k, entry in enumerate(ann):
+                    if '=' in entry:
+                        key, val = entry.split('=', 1)
+                        if key == 'w':
+                            w = float(val)
+                    elif k == 0:
+                        w = float(entry)
+                if w is not None:
+                    weights[idx] = w
     g = nx.Graph()
     for i, a in enumerate(mol.atoms):
-        g.add_node(i, element=a.get('element'), name=a.get('name'), charge=a.get('charge', 0))
+        if a.get('element') == 'H' and i not in weights:
+            continue            # plain explicit hydrogens are folded into the hydrogen count by the reader
+        g.add_node(i, element=a.get('element'), name=a.get('name'), charge=a.get('charge', 0), weight=weights.get(i, 1.0))
     for (i, j), o in mol.bonds.items():
-        g.add_edge(i, j, order=o)
+        if i in g and j in g:
+            g.add_edge(i, j, order=o)
     return g
 
 
@@ -215,7 +240,7 @@ class C02(core.Prop):
     @staticmethod
     def _copy_clause(mnode, nodes, order_of, tmpl, aa):
         mem = mnode.get('_members', [])
-        heavy = [n for n in mem if not (aa and nodes[n].get('element') == 'H')]
+        heavy = [n for n in mem if not (aa and nodes[n].get('element') == 'H' and 'mapping' not in nodes[n])]
         g = nx.Graph()
         for n in heavy:
             g.add_node(n, **nodes[n])
@@ -226,7 +251,8 @@ class C02(core.Prop):
 
         def neq(x, y):
             if aa:
-                return band(x.get('element') == y.get('element'), gg.val_eq(x.get('charge', 0), y.get('charge', 0)))
+                return band(x.get('element') == y.get('element'), gg.val_eq(x.get('charge', 0), y.get('charge', 0)),
+                            gg.val_eq(x.get('weight', 1), y.get('weight', 1)))
             return x.get('atomname') == y.get('name')
 
         def eeq(x, y):
